@@ -39,6 +39,12 @@ def make_L(rng, kind):
         L0 = rng.normal(size=(3, 3))
         L0 /= np.abs(np.linalg.eigvalsh((L0 + L0.T) / 2)).max()
         return (lambda t, x: L0), L0
+    if kind == "staged":
+        # shear, then a rigid rotation stage, then shear again (piecewise constant in time)
+        Ls = np.zeros((3, 3)); i, j = rng.choice(3, 2, replace=False); Ls[i, j] = 2.0
+        w = rng.normal(size=3)
+        W = np.array([[0, -w[2], w[1]], [w[2], 0, -w[0]], [-w[1], w[0], 0]])
+        return (lambda t, x: Ls if (t < 0.25 or t > 0.6) else W), Ls
     if kind == "timedep":
         L0 = rng.normal(size=(3, 3)); L0 -= np.trace(L0) / 3 * np.eye(3)
         L1 = rng.normal(size=(3, 3)); L1 -= np.trace(L1) / 3 * np.eye(3)
@@ -81,12 +87,12 @@ def scenario(seed, idx):
     rng = np.random.default_rng([seed, idx])
     ph, fb = PAIRS[idx % 6]
     regime = 4 if (idx // 6) % 3 else 6
-    kinds = ["simple", "pure", "axisym", "general", "timedep", "trace"]
-    lk = kinds[(idx // 2) % 6] if idx % 5 else kinds[rng.integers(6)]
+    kinds = ["simple", "pure", "axisym", "general", "timedep", "trace", "staged"]
+    lk = kinds[(idx // 2) % 7] if idx % 5 else kinds[rng.integers(7)]
     n = int(rng.choice([2, 16, 40]))
     tex = ["random", "clustered", "girdle", "single"][rng.integers(4)]
     fk = ["uniform", "skewed", "dominant"][rng.integers(3)]
-    parts = int(rng.choice([1, 3, 10]))
+    parts = int(rng.choice([1, 3, 10])) if lk != "staged" else 10
     params = dict(stress_exponent=float(rng.choice([1.5, 1.0, 2.0])), deformation_exponent=float(rng.choice([3.5, 2.0, 5.0, 3.0])),
                   nucleation_efficiency=float(rng.choice([5.0, 0.0, 10.0])), gbm_mobility=float(rng.choice([125, 0, 10, 200])),
                   gbs_threshold=float(rng.choice([0.3, 0.0, 0.9, 0.5])))
@@ -308,4 +314,164 @@ def run_scenarios(seed, start, count, clauses):
 
 def replay_one(seed, idx, clauses):
     r = run_scenarios(seed, idx, 1, clauses)
+    return dict(ok=not r["failures"], failures=r["failures"])
+
+
+def run_null_scenarios(seed, start, count):
+    """C07 clauses on the real code: null forcing, M* = 0, rejected regimes / ordinals, failed updates leave history untouched."""
+    import warnings
+
+    warnings.filterwarnings("ignore")
+    import pydrex
+    from pydrex import core
+
+    failures, ev = [], 0
+    for idx in range(start, start + count):
+        rng = np.random.default_rng([seed, idx, 5])
+        ph, fb = PAIRS[idx % 6]
+        n = int(rng.choice([2, 9, 30]))
+        O = make_texture(rng, n, ["random", "clustered", "single"][rng.integers(3)])
+        chi = float(rng.choice([0.0, 0.3, 0.6]))
+        # volumes at or above the sliding threshold so that grain-boundary sliding is the identity
+        f = make_fractions(rng, n, "skewed")
+        f = np.maximum(f, 1.01 * chi / n)
+        f /= f.sum()
+        if f.min() < chi / n:
+            f = np.full(n, 1.0 / n)
+        params = core.DefaultParams().as_dict()
+        params.update(gbs_threshold=chi, gbm_mobility=float(rng.choice([0, 125])), number_of_grains=n,
+                      phase_assemblage=(core.MineralPhase(ph),), phase_fractions=(1.0,))
+        parts = int(rng.choice([1, 4]))
+        times = np.linspace(0, float(rng.choice([0.5, 2.0])), parts + 1)
+        F0 = np.eye(3) + 0.1 * rng.normal(size=(3, 3))
+        Lgen, L0 = make_L(rng, ["simple", "general", "timedep"][rng.integers(3)])
+        w = rng.normal(size=3)
+        W = np.array([[0, -w[2], w[1]], [w[2], 0, -w[0]], [-w[1], w[0], 0]])
+        gp = lambda t: np.array([0.1 * t, 0.0, 0.0])
+        msgs = []
+        ev += 1
+
+        def mk(regime):
+            return pydrex.Mineral(phase=core.MineralPhase(ph), fabric=core.MineralFabric(fb), regime=core.DeformationRegime(regime), n_grains=n,
+                                  fractions_init=f.copy(), orientations_init=O.copy())
+
+        def unchanged(m, label, tolO=1e-12, tolf=1e-12):
+            dO = max(np.abs(np.asarray(o) - O).max() for o in m.orientations)
+            df = max(np.abs(np.asarray(x) - f).max() for x in m.fractions)
+            if not (dO <= tolO and df <= tolf):
+                msgs.append(f"{label}: texture changed (orientations {dO:.2e}, fractions {df:.2e})")
+
+        try:
+            # (i) viscosity-bound regimes under real flow
+            for regime in (0, 7):
+                m = mk(regime)
+                F = drive(m, params, F0, Lgen, gp, times)
+                unchanged(m, f"regime {regime}")
+                Fref = reference_F(Lgen, gp, F0, times[0], times[-1])
+                if np.abs(F - Fref).max() / np.abs(Fref).max() > 1e-2:
+                    msgs.append(f"regime {regime}: F does not follow dF/dt = L F")
+            # (ii) zero velocity gradient and rigid rotation in the dislocation regimes
+            for regime in (4, 6):
+                m = mk(regime)
+                F = drive(m, params, F0, lambda t, x: np.zeros((3, 3)), gp, times)
+                unchanged(m, f"L = 0, regime {regime}")
+                if np.abs(F - F0).max() > 1e-9:
+                    msgs.append("L = 0: F changed")
+                m = mk(regime)
+                F = drive(m, params, F0, lambda t, x: W, gp, times)
+                unchanged(m, f"rigid rotation, regime {regime}")
+                Fref = reference_F(lambda t, x: W, gp, F0, times[0], times[-1])
+                if np.abs(F - Fref).max() / np.abs(Fref).max() > 1e-2:
+                    msgs.append("rigid rotation: F does not follow dF/dt = L F")
+            # (iii) zero mobility: fractions unchanged under flow (chi = 0 so that sliding is off)
+            p0 = dict(params); p0["gbm_mobility"] = 0.0; p0["gbs_threshold"] = 0.0
+            for regime in (4, 6):
+                m = mk(regime)
+                drive(m, p0, F0, Lgen, gp, times)
+                df = max(np.abs(np.asarray(x) - f).max() for x in m.fractions)
+                if df > 1e-12:
+                    msgs.append(f"M* = 0, regime {regime}: fractions changed by {df:.2e}")
+            # (iv) unsupported / invalid regimes and mismatched pairs raise, history untouched -- for zero and non-zero L
+            bad_regimes = [2, 3, 5, 8, -1, 99]
+            for Lf, lab in ((Lgen, "flow"), (lambda t, x: np.zeros((3, 3)), "zero L")):
+                for regime in bad_regimes:
+                    m = mk(4)
+                    m.regime = regime
+                    try:
+                        m.update_orientations(params, F0, Lf, (0.0, 0.5, gp))
+                        msgs.append(f"regime ordinal {regime} with {lab} was accepted")
+                    except Exception as e:
+                        if len(m.orientations) != 1 or len(m.fractions) != 1 or not np.array_equal(m.orientations[0], O):
+                            msgs.append(f"failed update (regime {regime}) altered the stored history")
+                m = mk(4)
+                m.fabric = core.MineralFabric.enstatite_AB if ph == 0 else core.MineralFabric.olivine_A
+                try:
+                    m.update_orientations(params, F0, Lf, (0.0, 0.5, gp))
+                    msgs.append(f"mismatched (phase, fabric) with {lab} was accepted")
+                except Exception:
+                    if len(m.orientations) != 1:
+                        msgs.append("failed update (mismatched fabric) altered the stored history")
+        except Exception as e:
+            import traceback
+
+            msgs.append(f"raised {type(e).__name__}: {str(e)[:120]} @ {traceback.format_exc().splitlines()[-3][:100]}")
+        if msgs:
+            failures.append(dict(case=f"{seed}.{idx}", checker="contracts.scenarios:replay_null", inputs=dict(seed=int(seed), idx=int(idx)), what="; ".join(msgs[:4])))
+    return dict(evaluations=ev, failures=failures[:6])
+
+
+def replay_null(seed, idx):
+    r = run_null_scenarios(seed, idx, 1)
+    return dict(ok=not r["failures"], failures=r["failures"])
+
+
+def run_gbs_scenarios(seed, start, count):
+    """C09 on real updates: grains that end an update at the floor keep the orientation they had at its start."""
+    import warnings
+
+    warnings.filterwarnings("ignore")
+    failures, ev = [], 0
+    for idx in range(start, start + count):
+        sc = scenario(seed, idx)
+        sc["params"]["gbs_threshold"] = [0.3, 0.5, 0.9, 0.0][idx % 4]
+        sc["params"]["gbm_mobility"] = [125.0, 200.0, 50.0][idx % 3]
+        sc["n"] = [16, 40, 120][idx % 3]
+        sc["strain"] = 1.5
+        b = build(sc)
+        params, n = b["params"], sc["n"]
+        chi = params["gbs_threshold"]
+        msgs = []
+        ev += 1
+        try:
+            m = b["mineral"]()
+            F = b["F0"]
+            for a_, b_ in zip(b["times"][:-1], b["times"][1:]):
+                O_start = np.array(m.orientations[-1], copy=True)
+                F = m.update_orientations(params, F, b["get_L"], (float(a_), float(b_), b["get_pos"]))
+                fn_, On = np.asarray(m.fractions[-1]), np.asarray(m.orientations[-1])
+                if abs(fn_.sum() - 1) > 1e-9 or fn_.min() < 0:
+                    msgs.append("fractions not normalised")
+                if chi > 0:
+                    floor = fn_.min()
+                    if floor < chi / (n * (1 + chi)) * (1 - 1e-9):
+                        msgs.append(f"stored fraction {floor:.3e} below chi/(n(1+chi))")
+                    at_floor = np.isclose(fn_, floor, rtol=1e-12, atol=0) & (fn_ * (1 + chi) <= chi / n * (1 + 1e-9) * (1 + chi))
+                    # grains at the floor value chi/(n S): frozen at the start-of-update orientation
+                    S_ = (chi / n) / floor if floor > 0 else None
+                    if S_ is not None and 1 - 1e-9 <= S_ <= 1 + chi + 1e-9:
+                        fl = np.isclose(fn_ * S_, chi / n, rtol=1e-10, atol=0)
+                        if fl.any() and not np.array_equal(On[fl], O_start[fl]):
+                            d = np.abs(On[fl] - O_start[fl]).max()
+                            msgs.append(f"{int(fl.sum())} floored grains do not keep their start-of-update orientation (max diff {d:.2e})")
+                else:
+                    pass
+        except Exception as e:
+            msgs.append(f"raised {type(e).__name__}: {str(e)[:120]}")
+        if msgs:
+            failures.append(dict(case=f"{seed}.{idx}", checker="contracts.scenarios:replay_gbs", inputs=dict(seed=int(seed), idx=int(idx)), what="; ".join(msgs[:3])))
+    return dict(evaluations=ev, failures=failures[:6])
+
+
+def replay_gbs(seed, idx):
+    r = run_gbs_scenarios(seed, idx, 1)
     return dict(ok=not r["failures"], failures=r["failures"])
